@@ -71,6 +71,18 @@ def run(ctx):
             ctx.cov["traces_validated_against_impl"] += 1
     if okc < len(behs) * 0.8:
         raise kit.Inconclusive("replay driver unhealthy: %d of %d" % (okc, len(behs)))
+    # several backends lose their connections at the same instant (exits and self-removals of clients overlap)
+    mfile = os.path.join(ctx.work, "multi.ndjson")
+    ctx.harness(["c07-multi", "-out", mfile, "-rounds", "40" if ctx.thorough else "8", "-nodes", "16" if ctx.thorough else "8"], timeout=1200)
+    for r in kit.read_ndjson(mfile):
+        ctx.case(key=["multi", r["round"], r["fault"]], nontrivial=True)
+        if r.get("failing"):
+            ctx.violation("no-heal/simultaneous-loss/" + r["fault"],
+                          "%d of %d reachable backends keep failing after %s: %s" % (len(r["failing"]), r["nodes"], r["fault"], r["failing"][:3]), r)
+        elif r["maxConns"] > 1:
+            ctx.violation("orphan-backend-connection/simultaneous-loss", "%d backend connections open to one node" % r["maxConns"], r)
+        else:
+            ctx.cov["traces_validated_against_impl"] += 1
     if results:
         ctx.sample({"behaviour": [(s["a"], s["r"]) for s in behs[0]], "result": results[0]})
     ctx.cov["rule"] = ("histories = TLC simulation of ConnTableGen (seeded); distinct by event sequence; non-trivial = contains a fault; "
